@@ -427,8 +427,21 @@ def spec_thread(ctx: Ctx) -> None:
     ctx.need(n >= 20, f"only {n} creation call sites with spec context found")
     # _like_args fills spec from the operand
     la = repo.get(f"{A.CREATION}._like_args")
-    ok = any(isinstance(x, ast.Assign) and isinstance(x.targets[0], ast.Name) and x.targets[0].id == "spec" and unparse(x.value).endswith(".spec") for x in la.own_nodes())
-    ctx.ob(la, None, ok, "_like_args defaults spec to the operand's spec", sel="thread:like-args")
+    lcfg = cfg_of(la)
+    ok = False
+    ctx.need("spec" in la.params, "_like_args lost its spec parameter")
+    for x in la.own_nodes():
+        if isinstance(x, ast.Assign) and isinstance(x.targets[0], ast.Name) and x.targets[0].id == "spec" and isinstance(x.value, ast.Attribute) and x.value.attr == "spec" and isinstance(x.value.value, ast.Name) and x.value.value.id == la.params[0] and lcfg.has(x):
+            # ... exactly when no spec was given
+            for t, pol in facts_at(lcfg, lcfg.node_of(x)):
+                if isinstance(t, ast.Compare) and isinstance(t.left, ast.Name) and t.left.id == "spec" and isinstance(t.comparators[0], ast.Constant) and t.comparators[0].value is None and (isinstance(t.ops[0], ast.Is) == pol):
+                    ok = True
+                if isinstance(t, ast.Name) and t.id == "spec" and not pol:
+                    ok = True
+        # spec = spec or x.spec
+        if isinstance(x, ast.Assign) and isinstance(x.targets[0], ast.Name) and x.targets[0].id == "spec" and isinstance(x.value, ast.BoolOp) and isinstance(x.value.op, ast.Or) and isinstance(x.value.values[0], ast.Name) and x.value.values[0].id == "spec" and unparse(x.value.values[-1]) == f"{la.params[0]}.spec":
+            ok = True
+    ctx.ob(la, None, ok, "_like_args defaults spec to the operand's spec, exactly when none was given", sel="thread:like-args")
 
 
 @rule("SPEC-RESOLVE-1", props=["C19"], floor=2)
@@ -450,6 +463,9 @@ def spec_resolve(ctx: Ctx) -> None:
                 continue
             n += 1
             ok = isinstance(alt, ast.Call) and sfc in repo.callee_quals(alt, f) and alt.args and unparse(alt.args[0]) == "config"
+            # inheriting the spec of an array operand is not a resolution point of its own
+            if not ok and isinstance(alt, ast.Attribute) and alt.attr == "spec" and isinstance(alt.value, ast.Name) and alt.value.id in f.params:
+                ok = True
             ctx.ob(f, x, ok, "a missing spec resolves to spec_from_config(config)" + ("" if ok else f" — here it resolves to `{unparse(alt, 40)}` (a second resolution point: default and explicit-but-equal arrays stop combining)"), sel="resolve:default")
     init = repo.get(f"{A.ARRAY}.CoreArray.__init__")
     st = [x for x in init.own_nodes() if isinstance(x, ast.Assign) and is_self_attr(x.targets[0], "spec")]
